@@ -168,6 +168,10 @@ func c20parseElems(s string) ([]any, bool) {
 			out = append(out, math.NaN()) // json.Marshal fails: unsupported value
 			continue
 		}
+		if t == "C" || t == "W" {
+			out = append(out, c20Stop(t)) // the stream ends here with a cancellation (see c20execArr)
+			continue
+		}
 		b, ok := c20unhex(t)
 		if !ok {
 			return nil, false
@@ -180,6 +184,10 @@ func c20parseElems(s string) ([]any, bool) {
 	}
 	return out, true
 }
+
+// c20Stop marks the point where the source fails: "C" the caller's context is cancelled and the provider reports it,
+// "W" an upstream stage fails with an error wrapping context.Canceled while the context stays alive.
+type c20Stop string
 
 func c20werr(err error) string {
 	if err == nil {
@@ -213,8 +221,30 @@ func c20execArr(helper string, initOk bool, elems string) string {
 	if !ok {
 		return "bad-case"
 	}
-	ctx := context.Background()
+	ctx, cancel := context.WithCancel(context.Background())
+	defer cancel()
 	src := stream.Just(vals...)
+	for _, v := range vals {
+		if _, stop := v.(c20Stop); stop {
+			i := 0
+			src = stream.NewSimpleStream(func(ctx context.Context) (any, error) {
+				if i >= len(vals) {
+					return nil, io.EOF
+				}
+				v := vals[i]
+				i++
+				switch v {
+				case c20Stop("C"):
+					cancel()
+					return nil, ctx.Err()
+				case c20Stop("W"):
+					return nil, fmt.Errorf("upstream stage: %w", context.Canceled)
+				}
+				return v, nil
+			})
+			break
+		}
+	}
 	var out []byte
 	var err error
 	initS := "-"
@@ -244,7 +274,7 @@ func c20execArr(helper string, initOk bool, elems string) string {
 	}
 	back := "skip"
 	if err == nil {
-		res, rerr := jsonstream.ReadJsonArray[any](c20provider(out)).Collect(ctx)
+		res, rerr := jsonstream.ReadJsonArray[any](c20provider(out)).Collect(context.Background())
 		if rerr != nil {
 			back = "err:" + c20rerr(rerr)
 		} else {
@@ -1186,6 +1216,22 @@ func genC20Json(c *Ctx) {
 		c.Case(true, fmt.Sprintf("arr wi 0 %s", c20joinOrDash(smallHex[:n])))
 	}
 	c.Case(true, "arr wi 0 X")
+	// a stream cut by cancellation (the caller's context, or an upstream error wrapping context.Canceled) at every
+	// position: the writers must end with an error, never with a complete-looking document
+	for n := 1; n <= 4; n++ {
+		for pos := 0; pos < n; pos++ {
+			for _, stop := range []string{"C", "W"} {
+				l := make([]string, n)
+				for i := range l {
+					l[i] = smallHex[(i+pos)%len(smallHex)]
+				}
+				l[pos] = stop
+				for _, h := range helpers {
+					c.Case(true, fmt.Sprintf("arr %s 1 %s", h, strings.Join(l, ",")))
+				}
+			}
+		}
+	}
 	// hand-made documents: every error branch of the two providers
 	bad := []string{"", " ", "3", `"s"`, "[", "{", "]", "}", "[]", "{}", "[1,2", "[1,2}", "[1 2]", "[1,,2]", "[1,2,]", "[,1]", "[1,",
 		"[1,2]x", " [ 1 , \"a]\" ]  ", "[[1,2],[3", "[[1,2],[3]]", "[{\"a\":[1,{\"b\":\"}\"}]}]", "[\"a\\\"b\",\"\\\\\"]", "[\"abc",
